@@ -1,6 +1,8 @@
 import MazeVerif.Lemmas.TokSel
 import MazeVerif.Lemmas.TokVocabMem
 import MazeVerif.Lemmas.TokSpec
+import MazeVerif.Lemmas.TokSelNodup
+import MazeVerif.Lemmas.TokStrInj
 /-! # C06 — modular tokenization is a faithful, decodable encoding of the maze
 
 Model: `MZ.Tok.toTokens` (Model/Tok*.lean; maze_tokenizer.py:729-1900, token_utils.py:34-68,120-158,385-451, utils.py:124-167),
@@ -333,11 +335,47 @@ theorem C06_total (cfg : TokCfg) (mz : MazeIn) (es order : List OE)
       (StepTk.distance ∈ cfg.path.steps → ∀ p ∈ idxPairs (stepIdxs cfg.path.forks m sol), p.2 - p.1 ≤ 255)) :
     ∃ toks, toTokens cfg mz order = some toks := total cfg mz es order hsel hord hsol
 
-/-- full statement of the "each edge exactly once" refinement: the canonical selected edge lists have no duplicates.
-    NOT proved yet (needs `Nodup` of `flatMap`/`filter`/`map` over `List.range`); the multiset statements of `C06_edges_exact` are
-    relative to these lists, and the Python oracle checks multiplicities on every run. -/
+/-- full statement of the "each edge exactly once" refinement: the canonical selected edge lists have no duplicates
+    (proved below as `C06_selected_nodup_holds`; the multiset statements of `C06_edges_exact` are relative to these lists). -/
 def C06_selected_nodup : Prop :=
   ∀ (sub : Subset) (m : Maze) (es : List OE), selEdges sub m = some es → es.Nodup
+
+/-- holds with NO extra hypothesis: every grid shape (also `rows = 0`, `cols = 0`, `1×1`; `AllLatticeEdges` on a non-square grid
+    selects nothing because `maze.grid_n` asserts), every `edges` list (also with repeated or out-of-grid entries — `connEdges`
+    enumerates `np.ndindex` positions, not the stored list) -/
+theorem C06_selected_nodup_holds : C06_selected_nodup := fun _ _ _ h => nodup_selEdges h
+
+/-- consequence for what is emitted: under every permuter and shuffle flag no oriented edge is emitted twice; so with
+    `C06_edges_exact`, `SortedCoords`/`RandomCoords` emit each selected edge exactly once (`RandomCoords` in exactly one of its two
+    orientations) and `BothCoords` emits each orientation of each selected edge exactly once -/
+theorem C06_order_nodup (sub : Subset) (m : Maze) (p : Permuter) (shuffle : Bool) (es order : List OE)
+    (hsel : selEdges sub m = some es) (h : ValidOrder p shuffle es order) :
+    order.Nodup ∧ (p = .random → (order.map normE).Nodup) := by
+  have hn : es.Nodup := nodup_selEdges hsel
+  have hx := C06_edges_exact p shuffle es order h
+  cases p with
+  | sorted => exact ⟨hx.1.symm.nodup hn, fun hc => by cases hc⟩
+  | both => exact ⟨hx.1.symm.nodup (nodup_both hn (fwd_of_mem_selEdges hsel)), fun hc => by cases hc⟩
+  | random =>
+    have hm : (order.map normE).Nodup := hx.1.symm.nodup hn
+    exact ⟨List.Pairwise.of_map normE (fun a b hab hc => hab (by rw [hc])) hm, fun _ => hm⟩
+
+/-- the driver's reader `Tok.ofStr` inverts the rendering `Tok.str` on EVERY structured token — no range guard: all coordinates
+    (`num n`, `ut i j`), all distances (`dist d`), all 27 fixed tokens (whose strings come from constants.py as generated) -/
+theorem C06_tok_ofStr_str (t : Tok) : Tok.ofStr t.str = some t := ofStr_str t
+
+/-- the rendering of structured tokens as vocabulary strings is injective: two different structured tokens never print alike, so
+    the string-level output of the tokenizer determines the structured sequence the theorems above speak about -/
+theorem C06_tok_str_injective (a b : Tok) (h : a.str = b.str) : a = b := str_injective h
+
+/-- sequence level: reading the rendered sequence back (the driver's `mapM Tok.ofStr`) returns the structured sequence; hence
+    `List.map Tok.str` is injective on token sequences -/
+theorem C06_tok_seq_injective (xs ys : List Tok) (h : xs.map Tok.str = ys.map Tok.str) :
+    (xs.map Tok.str).mapM Tok.ofStr = some xs ∧ xs = ys := by
+  refine ⟨mapM_ofStr_str xs, ?_⟩
+  have hx := mapM_ofStr_str xs
+  rw [h, mapM_ofStr_str ys] at hx
+  exact (Option.some.inj hx).symm
 
 theorem C06_full_holds : C06_full := by
   intro cfg mz es order toks hv hsel hord h
@@ -402,5 +440,24 @@ example : ValidSol exSol ∧ exSol ≠ [] := by
       rw [List.getElem?_eq_none this] at hb; cases hb
   have : k = 0 ∨ k = 1 ∨ k = 2 := by omega
   rcases this with rfl | rfl | rfl <;> simp [exSol] at ha hb <;> subst ha hb <;> unfold LatAdj <;> decide
+
+/-- `C06_selected_nodup_holds` / `C06_order_nodup`: the 12 lattice edges of the 3×3 grid, the 5 connections and the 7 walls of `exMaze`
+    are lists of distinct edges (independent check by evaluation); a maze whose `edges` list repeats an entry still yields a
+    duplicate-free selection; the shuffled random-orientation order `exOrder` has no repeats -/
+example : (selEdges .all exMaze).map (fun es => decide (es.Nodup ∧ es.length = 12)) = some true ∧
+    (selEdges (.conn false) exMaze).map (fun es => decide (es.Nodup ∧ es.length = 5)) = some true ∧
+    (selEdges (.conn true) exMaze).map (fun es => decide (es.Nodup ∧ es.length = 7)) = some true ∧
+    selEdges (.conn false) ⟨2, 2, [(1, 0, 0), (1, 0, 0)]⟩ = some [((0, 0), (0, 1))] ∧
+    selEdges .all ⟨3, 2, []⟩ = none ∧ selEdges .all ⟨0, 0, []⟩ = some [] := by decide
+example : exOrder.Nodup ∧ (exOrder.map normE).Nodup ∧ exOrder.map normE ≠ exOrder := by decide
+/-- `C06_tok_ofStr_str` / `C06_tok_str_injective`: evaluation of the reader on rendered tokens of every family, including values
+    beyond the vocabulary ranges; `"("` vs `"(1,2)"`, `"7"` vs `"+7"` are told apart; non-canonical strings are read but the reader
+    is not injective on strings (`"007"`), which is why the theorem is stated in the `ofStr ∘ str` direction -/
+example : Tok.str (.ut 12 3) = "(12,3)" ∧ Tok.ofStr "(12,3)" = some (.ut 12 3) ∧ Tok.ofStr "(" = some .lp ∧
+    Tok.ofStr "7" = some (.num 7) ∧ Tok.ofStr "+7" = some (.dist 7) ∧ Tok.ofStr "1000" = some (.num 1000) ∧
+    Tok.ofStr "<PATH_END>" = some .pathEnd ∧ Tok.ofStr "007" = some (.num 7) ∧ Tok.ofStr "(1,)" = none ∧
+    Tok.ofStr "<UNK>" = none := by decide
+example : ([Tok.adjStart, .num 300, .ut 51 0, .dist 256, .card .west, .rel .stay, .adjEnd].map Tok.str).mapM Tok.ofStr =
+    some [Tok.adjStart, .num 300, .ut 51 0, .dist 256, .card .west, .rel .stay, .adjEnd] := by decide
 
 end MZ.Tok
